@@ -330,6 +330,10 @@ theorem anFirst_sound (tbl : Table) (u : Nat) (recA : List ASt → List Act → 
   | write m => simp only [anFirst, Option.some.injEq] at h; subst h; exact soundFor_prim sts _
   | unknown m => simp only [anFirst, Option.some.injEq] at h; subst h; exact soundFor_prim sts _
   | slot m => simp only [anFirst, Option.some.injEq] at h; subst h; exact soundFor_skip sts []
+  | trySend m => simp only [anFirst, Option.some.injEq] at h; subst h; exact soundFor_skip sts []
+  | tryRecv m => simp only [anFirst, Option.some.injEq] at h; subst h; exact soundFor_skip sts []
+  | makeChan m n => simp only [anFirst, Option.some.injEq] at h; subst h; exact soundFor_skip sts []
+  | del m => simp only [anFirst, Option.some.injEq] at h; subst h; exact soundFor_prim sts _
   | ret => simp only [anFirst, Option.some.injEq] at h; subst h; exact soundFor_ret sts
   | go b =>
     simp only [anFirst] at h
@@ -513,6 +517,10 @@ theorem anFirst_spawn (tbl : Table) (u fa n : Nat)
   | write m => exact spawnFor_nospawn _ _ _ _ _ _
   | unknown m => exact spawnFor_nospawn _ _ _ _ _ _
   | slot m => exact spawnFor_nospawn _ _ _ _ _ _
+  | trySend m => exact spawnFor_nospawn _ _ _ _ _ _
+  | tryRecv m => exact spawnFor_nospawn _ _ _ _ _ _
+  | makeChan m n => exact spawnFor_nospawn _ _ _ _ _ _
+  | del m => exact spawnFor_nospawn _ _ _ _ _ _
   | ret => exact spawnFor_nospawn _ _ _ _ _ _
   | go b =>
     simp only [anFirst] at h
